@@ -782,8 +782,12 @@ func parseType(parser *Parser) (ttype ast.Type, err error) {
 		if ttype, err = parseType(parser); err != nil {
 			return nil, err
 		}
-		fallthrough
-	case lexer.BRACKET_R:
+		// The list type must be closed by `]`. End of input is left to the
+		// caller: every production containing a type requires a further
+		// token after it and reports the unexpected <EOF> itself.
+		if !peek(parser, lexer.BRACKET_R) && !peek(parser, lexer.EOF) {
+			return nil, unexpected(parser, lexer.Token{})
+		}
 		if err = advance(parser); err != nil {
 			return nil, err
 		}
@@ -795,6 +799,10 @@ func parseType(parser *Parser) (ttype ast.Type, err error) {
 		if ttype, err = parseNamed(parser); err != nil {
 			return nil, err
 		}
+	case lexer.EOF:
+		// reported by the caller, see above
+	default:
+		return nil, unexpected(parser, lexer.Token{})
 	}
 
 	// BANG must be executed
